@@ -664,7 +664,8 @@ func (C07) AfterCall(w *World, c *Call) {
 						if _, isText := calls[j].Args[ai+1].(*types.XText); !isText {
 							continue
 						}
-						if calls[j].ArgText[ai+1] != a {
+						// (a literal argument is a template like any other: it evaluates to itself without surrounding blanks)
+						if calls[j].ArgText[ai+1] != strings.TrimSpace(a) {
 							// (the localized arguments are part of C07's statement as well as of C18's)
 							argProp := "C18"
 							if w.Cfg.Prop == "C07" {
